@@ -20,6 +20,17 @@ def presentations(w, rng):
     return out
 
 
+def base_world(seed, i):
+    """Every fifth world: --resize-export-files with short export files that are the only source of
+    their pieces (whether the export directory is listed as a scan directory must not matter)."""
+    if i % 5 == 4:
+        from props import c14
+        w = runprops.world_for("pres", seed, i, allow_shared=False, export_heavy=True)
+        c14.only_in_export(w, vlib.rng_for(seed, "C17/src/%d" % i))
+        return w
+    return runprops.world_for("pres", seed, i, allow_shared=False)
+
+
 def tree_of(rr):
     return {k: (v[0], v[1] if v[0] != "dir" else None) for k, v in rr.after.items()}
 
@@ -30,7 +41,7 @@ def correspondence(ctx):
     scen = []
     for i in range(n):
         rng = vlib.rng_for(ctx["seed"], "C17/%d" % i)
-        w = runprops.world_for("pres", ctx["seed"], i, allow_shared=False)
+        w = base_world(ctx["seed"], i)
         for name, v in presentations(w, rng):
             scen.append((runprops.Scenario("pres", ctx["seed"], i, {"presentation": name}), v))
         # supersets: one more candidate-bearing scan directory content / one more torrent
@@ -63,12 +74,18 @@ def correspondence(ctx):
                            "dedup/sort invariance and order-oracle independence on the model; tied to the code by trace validation under every presentation")
 
 
+def search(ctx, unexplained):
+    ctx2 = dict(ctx, tier="thorough")
+    res = correspondence(ctx2)
+    return res.get("findings", [])[:3]
+
+
 def replay(ctx, payload):
     vlib.build_harness()
     ctx["driver"] = vlib.build_driver()
     sc = payload["scenario"]
     rng = vlib.rng_for(sc["world_seed"], "C17/%d" % sc["index"])
-    w = runprops.world_for("pres", sc["world_seed"], sc["index"], allow_shared=False)
+    w = base_world(sc["world_seed"], sc["index"])
     scen = [(runprops.Scenario("pres", sc["world_seed"], sc["index"], {"presentation": n}), v) for n, v in presentations(w, rng)]
     runs = runprops.run_scenarios(ctx, scen)
     t0 = tree_of(runs[0]["rr"])
